@@ -600,14 +600,20 @@ def c18_block(rec, rng, kind, case):
             blk.events.append(tdfEvents.Event(lb, [1.0] if rng.random() < 0.5 else [], tdfEvents.EventsDataType.singleEvent))
     elif kind == "emg":
         blk = tdfEMG.EMG(1000, n)
+        def msk():   # fully present, with gaps, or wholly missing tracks
+            r_ = rng.random()
+            return [True] * n if r_ < 0.5 else ([False] * n if r_ < 0.7 else gen.rmask(rng, n))
         for lb in labels:
-            blk.addSignal(lib.build_item(kind, {"label": lb, "frames": gen.rframes(rng, [True] * n, 1)}, {}))
+            blk.addSignal(lib.build_item(kind, {"label": lb, "frames": gen.rframes(rng, msk(), 1)}, {}))
     else:
+        def msk():
+            r_ = rng.random()
+            return [True] * n if r_ < 0.5 else ([False] * n if r_ < 0.7 else gen.rmask(rng, n))
         w = 3 if kind == "data3D" else 9
         cls = tdfData3D.Data3D if kind == "data3D" else tdfForce3D.ForceTorque3D
         blk = cls(100, n, np.ones(3, np.float32), np.eye(3, dtype=np.float32), np.zeros(3, np.float32))
         for lb in labels:
-            blk.add_track(lib.build_item(kind, {"label": lb, "frames": gen.rframes(rng, [True] * n, w)}, {}))
+            blk.add_track(lib.build_item(kind, {"label": lb, "frames": gen.rframes(rng, msk(), w)}, {}))
     if rng.random() < 0.3:
         blk, _ = lib.dec(kind, lib.fmt_of(blk), lib.enc(blk))
 
